@@ -49,10 +49,48 @@ def generate(ck, tier):
     pairs = [s for s in sc.schedules_from(p2) if len(s) == 2]
     global WINDOW_SCHEDS
     WINDOW_SCHEDS = sc.gen_window_schedules(ck, tier)
+    gen_bursts(ck, tier)
     return singles, pairs, res["finished"]
 
 
 WINDOW_SCHEDS = []
+
+
+BURSTS = []
+
+
+def gen_bursts(ck, tier):
+    """SctpBatch.tla: the batcher's arithmetic over every payload length 0..1172 (invariant PacketFits); TLC prints
+    the packet lengths of each uniform burst, and the bursts that leave a packet tight (<= 12 bytes free) or one
+    word short of admitting another chunk become workloads - per position (first / later packet of a flush),
+    kind and distance a few each"""
+    sink = os.path.join(ck.dir, f"bursts_{tier}_{os.getpid()}.ndjson")
+    res = vlib.tlc("MC_SctpBatch", "MC_SctpBatch.cfg", tags=("BURST",), sinks={"BURST": sink}, timeout=600, workers=1,
+                   tag=f"MC_SctpBatch_{tier}_{os.getpid()}")
+    vlib.tlc_ok(res, "batcher model")
+    ck.add_tlc(res, "SctpBatch (payload 0..1172, burst 80): PacketFits")
+    groups = {}
+    for b in vlib.read_ndjson(sink):
+        c = 16 + b["p"] + (-(16 + b["p"]) % 4)
+        for pos in ("first", "later"):
+            if b[pos] == 0:
+                continue
+            slack = 1200 - b[pos]
+            if slack <= 12:
+                groups.setdefault((pos, "tight", slack), []).append(b)
+            elif 0 < c - slack <= 12:
+                groups.setdefault((pos, "near", c - slack), []).append(b)
+    per = 2 if tier == "quick" else 12
+    out = []
+    for k in sorted(groups):
+        out += sc.sample(groups[k], per, vlib.seed() + 50)
+    seen = set()
+    global BURSTS
+    BURSTS = [b for b in out if not (b["p"] in seen or seen.add(b["p"]))]
+    try:
+        os.remove(sink)
+    except OSError:
+        pass
 
 
 def stretch(faults, stride):
@@ -135,6 +173,13 @@ def build_scenarios(singles, pairs, tier):
             scen.append(sc.scenario(f"w{k:03d}", f, [sc.chan(1)], small_workload(rng, n, rng.choice([300, 500, 700])),
                                     cfg=cfg, idle_ms=200, deadline_ms=6000))
             k += 1
+    # bursts that fill packets to the brim or leave them one word short of another chunk (first and later packets
+    # of one flush): 80 equal messages queued back to back, each way
+    for i, b in enumerate(BURSTS):
+        msgs = [{"from": "A", "sid": 1, "len": b["p"]} for _ in range(b["n"])]
+        msgs += [{"from": "B", "sid": 1, "len": b["p"], "task": 1} for _ in range(b["n"] // 2)]
+        msgs += [{"from": "A", "sid": 1, "len": 5, "phase": 2}, {"from": "B", "sid": 1, "len": 5, "phase": 2}]
+        scen.append(sc.scenario(f"b{i:03d}", [], [sc.chan(1)], msgs, idle_ms=60, cfg={"max_burst": [0, 16][i % 2]}))
     # advertised window of exactly zero: TLC's closing-window schedules on a 1.5-3 KiB receive window
     scen += sc.window_scenarios(WINDOW_SCHEDS, rng, idle_ms=150, limit=40 if tier == "quick" else 400, seed=vlib.seed() + 30)
     return scen
